@@ -170,6 +170,9 @@ class ProductDomain(Domain):
                 volume_a = self.domain_a.volume(
                     b_points.join(new_params), device=device
                 )
+                if volume_a.numel() == 1:
+                    # the volume of domain_a does not depend on the points of domain_b
+                    volume_a = volume_a.expand(len(b_points), 1)
                 reshape_volume = volume_a.reshape(N_APPROX_VOLUME, -1)
                 mean_volume = torch.sum(reshape_volume, dim=0) / N_APPROX_VOLUME
                 return mean_volume.reshape(-1, 1) * self.domain_b.volume(
@@ -183,24 +186,28 @@ class ProductDomain(Domain):
                     _, new_params = self._repeat_params(
                         n=N_APPROX_VOLUME, params=local_params
                     )
+                    volume_a = self.domain_a.volume(
+                        b_points.join(new_params), device=device
+                    )
+                    if volume_a.numel() == 1:
+                        volume_a = volume_a.expand(len(new_params), 1)
                     return (
                         torch.sum(
-                            self.domain_a.volume(
-                                b_points.join(new_params), device=device
-                            ).reshape(N_APPROX_VOLUME, -1),
+                            volume_a.reshape(N_APPROX_VOLUME, -1),
                             dim=0,
                         )
                         / N_APPROX_VOLUME
                         * b_volume
                     )
 
-                args = self.domain_a.necessary_variables - self.domain_b.space.variables
-                self._user_volume = UserFunction(avg_volume, args=args)
+                # (not stored as user volume: volume() could not call it again)
                 return avg_volume(params)
             else:
                 # we can compute the volume only once and save it
                 volume = sum(
-                    (self.domain_a.volume(b_points, device=device))
+                    (self.domain_a.volume(b_points, device=device)).expand(
+                        len(b_points), 1
+                    )
                     / N_APPROX_VOLUME
                     * self.domain_b.volume(device=device)
                 )
